@@ -390,3 +390,102 @@ func FuzzDatagram(f *testing.F) {
 		}
 	})
 }
+
+// ---- C12: HTTP surface ------------------------------------------------------------
+
+var httpEnv struct {
+	s       *world.Server
+	gca     ref.Key
+	created time.Time
+	n       int
+}
+
+var httpRoutes = []string{"/api/v1/all-device-stats", "/api/v1/authorized-servers", "/api/v1/authorize-equipment", "/api/v1/equipment", "/api/v1/equipment-migrate", "/api/v1/register-gca", "/api/v1/recent-reports", "/api/v1/archive", "/api/v1/geo-stats"}
+var httpMethods = []string{"GET", "POST", "PUT", "DELETE", "HEAD", "PATCH"}
+
+func FuzzHTTP(f *testing.F) {
+	f.Add(uint8(0), uint8(0), "timeslot_offset=0", []byte{})
+	f.Add(uint8(2), uint8(1), "", []byte(`{"ShortID":1}`))
+	f.Add(uint8(2), uint8(0x41), "", bytes.Repeat([]byte{7}, 90))
+	f.Add(uint8(6), uint8(0), "publicKey=00", []byte{})
+	f.Add(uint8(1), uint8(0x81), "", bytes.Repeat([]byte{3}, 60))
+	f.Fuzz(func(t *testing.T, route, mode uint8, query string, body []byte) {
+		if httpEnv.s == nil || time.Since(httpEnv.created) > fixtureLifetime {
+			if httpEnv.s != nil {
+				glow.SetCurrentTimeslot(0)
+				httpEnv.s.Close()
+				os.RemoveAll(httpEnv.s.Dir)
+			}
+			httpEnv.created = time.Now()
+			server.VerifSetStepping(true)
+			glow.SetCurrentTimeslot(100)
+			temp := ref.KeyFromSeed([]byte(salt() + "h-temp"))
+			httpEnv.gca = ref.KeyFromSeed([]byte(salt() + "h-gca"))
+			s, err := world.StartServer(world.NewServerDir(temp.Pub))
+			if err != nil {
+				panic(err)
+			}
+			s.Register(httpEnv.gca.Pub, temp)
+			httpEnv.s = s
+		}
+		if len(body) > 4000 {
+			body = body[:4000]
+		}
+		if len(query) > 200 {
+			query = query[:200]
+		}
+		r := httpRoutes[int(route)%len(httpRoutes)]
+		m := httpMethods[int(mode&0x0f)%len(httpMethods)]
+		// structure-aware layers: turn the bytes into a validly signed payload
+		switch {
+		case mode&0x40 != 0 && len(body) >= 60: // GCA-signed authorization with fuzzer-chosen field values
+			id := uint32(body[0] % 8)
+			a := ref.Auth{ShortID: id, PublicKey: ref.KeyFromSeed([]byte(fmt.Sprintf("%sdev%d", salt(), id))).Pub,
+				Latitude: float64(int8(body[1])), Longitude: float64(int8(body[2])) * 1.5,
+				Capacity: binary.LittleEndian.Uint64(body[4:]), Debt: binary.LittleEndian.Uint64(body[12:]), Expiration: binary.LittleEndian.Uint32(body[20:]),
+				Initialization: binary.LittleEndian.Uint32(body[24:]), ProtocolFee: binary.LittleEndian.Uint64(body[28:])}
+			a.Sig = ref.Sign(httpEnv.gca, a.SigningBytes())
+			st, _, err := httpEnv.s.Authorize(a)
+			_ = st
+			if err != nil {
+				t.Fatalf("C12: authorization request got no response: %v (panics %+v)", err, server.VerifPanics())
+			}
+		case mode&0x80 != 0 && len(body) >= 40: // GCA-signed server authorization
+			as := ref.AuthServer{PublicKey: ref.KeyFromSeed([]byte(fmt.Sprintf("%speer%d", salt(), body[0]%6))).Pub, Banned: body[1]&1 != 0,
+				Location: string(body[8 : 8+int(body[2])%32]), HttpPort: uint16(body[3]%2) * 8, TcpPort: binary.LittleEndian.Uint16(body[4:]), UdpPort: binary.LittleEndian.Uint16(body[6:])}
+			as.Sig = ref.Sign(httpEnv.gca, as.SigningBytes())
+			if _, _, err := httpEnv.s.PostJSON("/api/v1/authorized-servers", world.ToGlowServer(as)); err != nil {
+				t.Fatalf("C12: server authorization request got no response: %v (panics %+v)", err, server.VerifPanics())
+			}
+		default:
+			path := r
+			if query != "" {
+				path += "?" + strings.Map(func(c rune) rune {
+					if c <= ' ' || c > '~' || c == '#' {
+						return '_'
+					}
+					return c
+				}, query)
+			}
+			_, _, err := httpEnv.s.Do(m, path, body)
+			if err != nil && !strings.Contains(err.Error(), "invalid") && !strings.Contains(err.Error(), "malformed") {
+				if ps := server.VerifPanics(); len(ps) > 0 {
+					t.Fatalf("C12: handler panicked on %s %s: %s", m, path, ps[0].Value)
+				}
+				t.Fatalf("C12: %s %s got no response: %v", m, path, err)
+			}
+		}
+		if ps := server.VerifPanics(); len(ps) > 0 {
+			t.Fatalf("C12: server panicked on %s %s (mode %#x): %s: %s", m, r, mode, ps[0].Where, ps[0].Value)
+		}
+		httpEnv.n++
+		if httpEnv.n%50 == 0 {
+			if st, _, err := httpEnv.s.Get("/api/v1/equipment"); err != nil || st != 200 {
+				t.Fatalf("C12: liveness probe failed: %v %d", err, st)
+			}
+			if a, b := httpEnv.s.S.VerifTryLocks(); !a || !b {
+				t.Fatalf("C12: a server mutex is held at quiescence")
+			}
+		}
+	})
+}
